@@ -245,6 +245,11 @@ class Ctx:
 
 import os as _os
 
+def task_budget():
+    """wall-time budget of one call-level task (env VERIF_TASK_BUDGET_S, set per tier by checks.main)"""
+    return float(_os.environ.get("VERIF_TASK_BUDGET_S", "0") or 0) or None
+
+
 CVC5_EVERY = [int(_os.environ.get("VERIF_CVC5_EVERY", "0") or 0)]  # cross-check every n-th obligation with cvc5 (0 = off)
 _CVC5_COUNT = [0]
 
@@ -354,6 +359,7 @@ def explore(
     timeout_ms: int = 60000,
     catch=(Exception,),
     logic: Optional[str] = None,
+    time_budget_s: Optional[float] = None,
 ) -> Stats:
     """Run `fn(ctx)` along every feasible path; `on_path(ctx, result)` is called while the
     path's constraints are still asserted in the solver, so it can discharge obligations."""
@@ -362,11 +368,14 @@ def explore(
     solver.set("timeout", timeout_ms)
     pending: List[dict] = [{}]
     n = 0
+    t_start = time.time()
     while pending:
         fixed = pending.pop()
         n += 1
         if n > max_paths:
             raise PathLimit(f"more than {max_paths} paths")
+        if time_budget_s and time.time() - t_start > time_budget_s:
+            raise PathLimit(f"time budget of {time_budget_s}s per task exhausted after {n - 1} paths")
         solver.push()
         ctx = Ctx(solver, fixed, stats, timeout_ms)
         Ctx.cur = ctx
